@@ -9,7 +9,7 @@ from .common.httpgen import generate as _gen
 from .common.codec import hx, unhx
 
 PROPERTY = "C10"
-LEAN_MODULES = ["AioProps.C10", "AioProps.C10Run", "AioProps.C10Body"]
+LEAN_MODULES = ["AioProps.C10", "AioProps.C10Run", "AioProps.C10Body", "AioProps.C10Tail"]
 THEOREMS = [
     "Aio.Http.long_line_rejected",
     "Aio.Http.too_many_headers_rejected",
@@ -25,6 +25,9 @@ THEOREMS = [
     "Aio.Http.feedAll_retained",
     "Aio.Http.payloadFeed_complete_eof",
     "Aio.Http.error_ends_open_body",
+    "Aio.Http.chunkedLoop_tail",
+    "Aio.Http.payloadFeed_retained",
+    "Aio.Http.payloadRun_retained",
 ]
 RULE = ("(a) limit probes: for each syntactic position (request line, status line, header field, chunk-size line incl. extension, "
         "trailer) a stream whose line at that position has length limit-1, limit, limit+1 (limits drawn 8..200, max_line_size != "
